@@ -117,9 +117,15 @@ pub enum Step {
     Paged2,
     PagedEarly,
     Unsolicited,
+    /// search() with a timeout against a server that never answers: the stream is dropped unfinished
+    SearchAllTimedOut,
+    /// a timed stream whose next() times out, then finish()
+    StreamTimedOutFinish,
+    /// a user-defined adapter fails mid-stream while the search is live, then finish()
+    CustomAdapterFails,
 }
 
-pub const ALL_STEPS: [Step; 13] = [
+pub const ALL_STEPS: [Step; 16] = [
     Step::SingleOk,
     Step::SingleErr,
     Step::TimedOut,
@@ -133,6 +139,9 @@ pub const ALL_STEPS: [Step; 13] = [
     Step::Paged2,
     Step::PagedEarly,
     Step::Unsolicited,
+    Step::SearchAllTimedOut,
+    Step::StreamTimedOutFinish,
+    Step::CustomAdapterFails,
 ];
 
 /// append the calls of one step (markers are made unique with `tag`)
@@ -188,6 +197,24 @@ fn push_step(s: &mut Scenario, script: &mut Vec<Call>, step: Step, tag: &str) {
             // finish while page 2 is open
             script.extend([start(&m("pe"), Chain::Paged(1)), Call::Next, Call::Next, Call::Finish]);
             s.plans.insert(m("pe"), Plan { total: 3, ..Default::default() });
+        }
+        Step::SearchAllTimedOut => {
+            script.push(Call::Search { marker: m("st"), timeout: Some(10) });
+            s.plans.insert(m("st"), Plan { silent: true, ..Default::default() });
+            s.tick_budget += 2;
+        }
+        Step::StreamTimedOutFinish => {
+            script.extend([
+                Call::Start { marker: m("sf"), chain: Chain::EntriesOnly, timeout: Some(10), ctrl: false, opts: false, own_paging: false },
+                Call::Next,
+                Call::Finish,
+            ]);
+            s.plans.insert(m("sf"), Plan { silent: true, ..Default::default() });
+            s.tick_budget += 2;
+        }
+        Step::CustomAdapterFails => {
+            script.extend([start(&m("cf"), Chain::FailAfter(1)), Call::Next, Call::Next, Call::Finish]);
+            s.plans.insert(m("cf"), plan_items(&[E, E, E]));
         }
         Step::Unsolicited => {
             script.push(single(OpKind::Bind, &m("un")));
@@ -382,6 +409,18 @@ pub fn c05(tier: Tier) -> Vec<Scenario> {
     s.select_starts = vec![0, 1];
     s.oracles = Oracles { ids: true, route: true, ..Default::default() };
     out.push(s);
+    // an Abandon is a request like any other: own fresh ID, also from a fresh clone and while
+    // the handle's previous operation is still outstanding
+    let mut s = Scenario::new("C05/abandon-ids");
+    s.clients = vec![
+        client(vec![single(OpKind::Compare, "victim")]),
+        client(vec![Call::Abandon(AbTarget::Marker("victim".into())), single(OpKind::Bind, "b1")]),
+        client(vec![start("s0", Chain::Direct), Call::Abandon(AbTarget::Fixed(77)), Call::Next, Call::Next, Call::Finish]),
+    ];
+    s.plans.insert("s0".into(), plan_items(&[E]));
+    s.select_starts = vec![1];
+    s.oracles = Oracles { ids: true, route: true, ..Default::default() };
+    out.push(s);
     // timeouts and abandons free IDs while other operations are outstanding
     let mut s = Scenario::new("C05/timeout-abandon-reuse");
     s.clients = vec![
@@ -446,7 +485,7 @@ pub fn c10(tier: Tier) -> Vec<Scenario> {
     for chain in [Chain::Direct, Chain::EntriesOnly] {
         let mut s = Scenario::new(&format!("C10/{:?}/failure-then-finish", chain));
         s.clients = vec![ClientSpec { script: vec![start("s", chain), Call::Next], free: 3 }];
-        s.plans.insert("s".into(), plan_items(&[E, E]));
+        s.plans.insert("s".into(), plan_items(&[R, E, R, E]));
         s.faults = vec![FaultKind::Eof];
         s.fault_budget = 1;
         s.select_starts = vec![1];
@@ -535,6 +574,16 @@ pub fn c16(tier: Tier) -> Vec<Scenario> {
         s.oracles = Oracles { paged: true, route: true, leak: true, ..Default::default() };
         out.push(s);
     }
+    for order in 0..4u8 {
+        for chain in [Chain::Paged(2), Chain::EntriesPaged(2)] {
+            let mut s = Scenario::new(&format!("C16/own-paging-control-position{}/{:?}", order, chain));
+            s.clients = vec![client(vec![Call::StartOwnPaging { marker: "pg".into(), chain, order }, single(OpKind::Bind, "after")])];
+            s.plans.insert("pg".into(), Plan { total: 2, ..Default::default() });
+            s.select_starts = vec![1];
+            s.oracles = Oracles { paged: true, route: true, leak: true, ..Default::default() };
+            out.push(s);
+        }
+    }
     // two paged searches at once on two handles
     let mut s = Scenario::new("C16/two-paged-concurrently");
     s.clients = vec![
@@ -610,6 +659,34 @@ pub fn c12(tier: Tier) -> Vec<Scenario> {
         single(OpKind::Delete, "untimed"),
     ])];
     s.plans.insert("s".into(), plan_items(&[]));
+    s.tick_budget = 3;
+    s.select_starts = vec![1];
+    s.oracles = o.clone();
+    out.push(s);
+    // a timed search through PagedResults against a silent server: next() must time out
+    for chain in [Chain::Paged(1), Chain::EntriesPaged(2)] {
+        let mut s = Scenario::new(&format!("C12/timed-paged-silent-{:?}", chain));
+        s.clients = vec![client(vec![
+            Call::Start { marker: "pgs".into(), chain, timeout: Some(10), ctrl: false, opts: false, own_paging: false },
+            Call::Next,
+            Call::Finish,
+            single(OpKind::Bind, "after"),
+        ])];
+        s.plans.insert("pgs".into(), Plan { silent: true, total: 2, ..Default::default() });
+        s.tick_budget = 3;
+        s.select_starts = vec![1];
+        s.oracles = o.clone();
+        out.push(s);
+    }
+    // page 1 is answered, page 2 never: the follow-up search must time out as well
+    let mut s = Scenario::new("C12/timed-paged-second-page-silent");
+    s.clients = vec![client(vec![
+        Call::Start { marker: "pg2".into(), chain: Chain::Paged(1), timeout: Some(10), ctrl: false, opts: false, own_paging: false },
+        Call::Next,
+        Call::Next,
+        Call::Finish,
+    ])];
+    s.plans.insert("pg2".into(), Plan { total: 2, silent_after_pages: 1, ..Default::default() });
     s.tick_budget = 3;
     s.select_starts = vec![1];
     s.oracles = o.clone();
